@@ -87,8 +87,19 @@ def lean_files_for(prop):
     return fs
 
 
+def part_files(prop):
+    """files named by `-- audit-parts: <path under lean/> ...` lines of Props/<prop>.lean: same namespace, audited as part of the property file"""
+    raw = open(os.path.join(PROPS_DIR, prop + ".lean")).read()
+    out = []
+    for m in re.finditer(r"^--\s*audit-parts:\s*(.+)$", raw, re.M):
+        out += [os.path.join(LEAN, p) for p in m.group(1).split()]
+    return out
+
+
 def theorems_of(prop):
     src = strip_comments(open(os.path.join(PROPS_DIR, prop + ".lean")).read())
+    for pf in part_files(prop):
+        src += "\n" + strip_comments(open(pf).read())
     ns = re.search(r"^namespace\s+(\S+)", src, re.M)
     ns = ns.group(1) if ns else ""
     names = re.findall(r"^\s*(?:private\s+|protected\s+)?theorem\s+(\S+)", src, re.M)
